@@ -22,10 +22,11 @@ type Float struct {
 
 type Object struct {
 	ID    int
-	Slots []Value      // nil entry = zero value of its leaf type
+	N     int
+	Slots []Value      // dense storage (nil entry = zero value of its leaf type); nil for big objects
+	Big   map[int]Value // sparse storage for big objects
 	Leaf  []types.Type // leaf-type pattern (repeats)
 	Name  string
-	Fresh int // journal mark at allocation time (writes need no journal if allocated after the mark)
 }
 
 type SymIdx struct {
@@ -273,4 +274,25 @@ func (e *Engine) zeroValue(t types.Type) Value {
 		return r
 	}
 	return e.zeroLeaf(t)
+}
+
+const bigObject = 1 << 20
+
+func (o *Object) rawGet(i int) Value {
+	if o.Big != nil {
+		return o.Big[i]
+	}
+	return o.Slots[i]
+}
+
+func (o *Object) rawSet(i int, v Value) {
+	if o.Big != nil {
+		if v == nil {
+			delete(o.Big, i)
+		} else {
+			o.Big[i] = v
+		}
+		return
+	}
+	o.Slots[i] = v
 }
